@@ -457,6 +457,10 @@ func (r *transport) handleStaleWhileRevalidate(
 	noCacheFieldsSeq iter.Seq[string],
 ) (*http.Response, error) {
 	req2 := req.Clone(req.Context())
+	// The background request outlives this exchange: like the caller's context (see
+	// backgroundRevalidate), the caller's cancellation channel must not end it. http.Client sets
+	// one for its Timeout.
+	req2.Cancel = nil //nolint:staticcheck // deprecated, but honoured by net/http transports
 	req2 = withConditionalHeaders(req2, stored.Data.Header)
 	// Background revalidation is "best effort"; it is not guaranteed to complete
 	// if the program exits before the goroutine finishes. This design choice was
